@@ -324,6 +324,25 @@ func (x *Exec) static(site ssa.Instruction, fn *ssa.Function, bindings []Value, 
 	if isPureExternal(fn) {
 		return x.pureCall(fn, args, st)
 	}
+	if readOnlyExternal(fn) {
+		// a side-effect-free library function over values and byte / string slices: it writes
+		// nothing that exists, its results are unknown values (a returned slice is fresh memory)
+		x.u.usedAssumed[full+" (side-effect free: writes nothing, result unconstrained)"] = true
+		allocBefore := st.alloc
+		res := fn.Signature.Results()
+		var vals []Value
+		for i := 0; i < res.Len(); i++ {
+			r := x.u.W.Fresh("r."+sanitize(full), x.u.W.SortOf(res.At(i).Type()))
+			x.assumeTypeInv(r, res.At(i).Type(), x.curBlockReach, st)
+			if _, isSl := res.At(i).Type().Underlying().(*types.Slice); isSl {
+				st.alloc = x.u.W.Fresh("alloc", SInt)
+				x.assume(Ge(st.alloc, allocBefore))
+				x.assume(Or(Eq(SlCap(r), IntLit(0)), And(Ge(PBase(SlPtr(r)), allocBefore), Lt(PBase(SlPtr(r)), st.alloc))))
+			}
+			vals = append(vals, r)
+		}
+		return resultValue(vals)
+	}
 	if eng.inRepo(fn) && fn.Blocks != nil {
 		if x.depth < maxInlineDepth && !x.onStack(fn) {
 			return x.inline(site, fn, bindings, args, st)
@@ -353,6 +372,50 @@ var pureFuncs = map[string]bool{
 	"(*regexp.Regexp).MatchString": true, "(*regexp.Regexp).FindAllString": false, "regexp.MustCompile": true,
 	"(*regexp.Regexp).ReplaceAllString": true, "(*regexp.Regexp).FindStringSubmatch": false,
 	"(*strings.Builder).String": false,
+}
+
+// readOnlyExternal: package-level functions of side-effect-free library packages whose parameters
+// are values, strings and slices of basic types, and whose results are values, strings or slices
+// of basic types.
+var readOnlyPkgs = map[string]bool{"encoding/hex": true, "encoding/base64": true, "bytes": true, "strings": true, "strconv": true, "unicode/utf8": true, "unicode/utf16": true,
+	"crypto/sha256": true, "crypto/sha1": true, "crypto/md5": true, "hash/fnv": false, "hash/crc32": true, "math": true, "math/bits": true, "html": true, "net/url": false, "path": true, "path/filepath": false}
+
+var sliceReaders = map[string]bool{"encoding/hex.EncodeToString": true, "encoding/hex.Dump": true, "bytes.Equal": true, "bytes.Compare": true, "bytes.Contains": true, "bytes.Index": true,
+	"bytes.IndexByte": true, "bytes.HasPrefix": true, "bytes.HasSuffix": true, "bytes.Count": true, "bytes.TrimSpace": false, "bytes.ToLower": true, "bytes.ToUpper": true, "bytes.EqualFold": true,
+	"unicode/utf8.Valid": true, "unicode/utf8.RuneCount": true, "unicode/utf8.DecodeRune": true, "unicode/utf8.DecodeLastRune": true, "unicode/utf8.FullRune": true,
+	"crypto/sha256.Sum256": true, "crypto/sha256.Sum224": true, "crypto/sha1.Sum": true, "crypto/md5.Sum": true, "hash/crc32.ChecksumIEEE": true, "strings.Join": true}
+
+func readOnlyExternal(fn *ssa.Function) bool {
+	if fn.Pkg == nil || !readOnlyPkgs[fn.Pkg.Pkg.Path()] || fn.Signature.Recv() != nil || fn.Signature.Variadic() {
+		return false
+	}
+	plain := func(t types.Type, allowSlice bool) bool {
+		switch u := t.Underlying().(type) {
+		case *types.Basic:
+			return true
+		case *types.Slice:
+			_, ok := u.Elem().Underlying().(*types.Basic)
+			return ok && allowSlice
+		case *types.Array:
+			_, ok := u.Elem().Underlying().(*types.Basic)
+			return ok
+		}
+		return false
+	}
+	ps, rs := fn.Signature.Params(), fn.Signature.Results()
+	for i := 0; i < ps.Len(); i++ {
+		// a slice parameter may be a destination (hex.Encode, utf8.EncodeRune, strconv.AppendInt):
+		// only functions known to read their slices are admitted with one
+		if !plain(ps.At(i).Type(), sliceReaders[fn.String()]) {
+			return false
+		}
+	}
+	for i := 0; i < rs.Len(); i++ {
+		if !plain(rs.At(i).Type(), true) && rs.At(i).Type().String() != "error" {
+			return false
+		}
+	}
+	return true
 }
 
 func isPureExternal(fn *ssa.Function) bool {
